@@ -236,7 +236,7 @@ prop(id="C10", vfile="Properties/C10.v",
 prop(id="C09", vfile="Properties/C09.v",
      runs=lambda tier, seed: [dict(profile="node", seed=seed + 7, n=_sizes(tier, 100, 2500), extra=["-blocks", "10"]),
                               dict(profile="node", seed=seed + 11, n=_sizes(tier, 12, 600), extra=["-blocks", "8"], second_process=True),
-                              dict(profile="aollist", seed=seed, n=_sizes(tier, 10, 500), extra=["-blocks", "4"])],
+                              dict(profile="aollist", seed=seed, n=_sizes(tier, 16, 500), extra=["-blocks", "4", "-twin"])],
      rule=NODE_RULE + " || the twin replica is a second application object in the same process initialised from the same genesis bytes "
           "(Go randomises map iteration per range statement, so map order differs between the two); a third run is repeated in "
           "a second process with GOMAXPROCS=1, another TZ and another start time and all application hashes are compared",
@@ -248,7 +248,11 @@ prop(id="C09", vfile="Properties/C09.v",
 
 
 UPGRADE_RULE = ("upgrade profile: a chain populated by the aol / pnft / did generators; in a random block the plan of the last entry of app.Upgrades "
-                "is scheduled for the next height; the node is stopped never / before / between scheduling and the upgrade block (with "
+                "is scheduled for the next height (in a third of the aol / did histories: the plan of an earlier entry this binary also has a "
+                "handler for and can load the disk of — v2.2.0 —, after the stores that entry adds have been emptied and their modules removed "
+                "from the recorded version map, as on a chain that skipped releases); before scheduling, the recorded versions of the custom "
+                "modules are set to the baseline of the previous releases (all 1), so that a version step without a migration halts the "
+                "upgrade block; the node is stopped never / before / between scheduling and the upgrade block (with "
                 "upgrade-info.json on disk so that the upgrade store loader is installed) / inside the upgrade block / after it; the model "
                 "answers the same history (an upgrade block has no custom-module effect) and the dumps of the three custom stores after the "
                 "upgrade are compared. On the implementation alone: BeginBlock at the plan height must not panic, the plan must be marked done "
@@ -261,8 +265,9 @@ prop(id="C19", vfile="Properties/C19.v",
          "baseline (the stores of the release preceding the first descriptor: SDK 0.42 module set + aol, did, burn, token, wasm) is the one "
          "input that is not in the repository; it is written in Upgrade/Repo.v and, independently, in harness/upgrade.go",
          "rootmulti.loadVersion / UpgradeStoreLoader (cosmos-sdk v0.47.12) are modelled from their source (Upgrade/Model.v), not verified",
-         "the populated pre-upgrade state is produced by the current binary (the previous release's binary is not available offline), so "
-         "RunMigrations finds every module at its current consensus version"],
+         "the populated pre-upgrade state is produced by the current binary (the previous release's binary is not available offline): the "
+         "SDK modules are found at their current consensus versions, the custom modules at the recorded baseline (all 1; "
+         "Upgrade/Baseline.v and harness/upgrade.go), which the generated fact custom_consensus_versions is compared with"],
      partial="the dynamic half (no halt, versions recorded, data unchanged, restart equivalence on the real store) is decided by running the real "
              "upgrade on generated populated states, not proved; migrations from genuinely older module versions cannot be exercised offline")
 
